@@ -182,7 +182,7 @@ Variable E : Type.
 Variable eupd : N -> N -> N -> E -> E.
 
 Definition Rep6 (lgk : N) (seen : list N) (a : arr6 E) (e : E) : Prop :=
-  a6_lgk a = lgk /\ WFb (a6_bytes a) /\ (forall j, a6_get a j = spec_regs lgk seen j) /\
+  a6_lgk a = lgk /\ WFb (a6_bytes a) /\ (forall j, j < 2 ^ lgk -> a6_get a j = spec_regs lgk seen j) /\
   a6_nz a = spec_zeros lgk seen /\ a6_est a = e.
 
 Lemma rep6_new : forall lgk e, Rep6 lgk [] (a6_new lgk e) e.
@@ -196,19 +196,19 @@ Lemma rep6_step : forall lgk seen a e c, Forall valid (c :: seen) -> Rep6 lgk se
   Rep6 lgk (c :: seen) (a6_update eupd a c) (est_step eupd lgk seen c e).
 Proof.
   intros lgk seen a e c Hv (Hk & W & Hr & Hz & He). unfold a6_update, est_step.
-  rewrite Hk, slot_of_cslot, get_value_div, Hr.
+  rewrite Hk, slot_of_cslot, get_value_div, Hr by apply cslot_lt.
   destruct (N.ltb_spec (spec_regs lgk seen (cslot lgk c)) (cvalue c)) as [Hlt|Hge].
   - unfold Rep6, a6_get. cbn [a6_lgk a6_bytes a6_nz a6_est].
     split; [reflexivity|]. split; [now apply a6_put_WF|]. split; [|split].
-    + intros j. destruct (N.eq_dec (cslot lgk c) j) as [Ej|Ej].
+    + intros j Hj. destruct (N.eq_dec (cslot lgk c) j) as [Ej|Ej].
       * rewrite (spec_regs_cons_same lgk seen c j Ej) by (rewrite <- Ej; assumption).
         rewrite <- Ej. apply a6_get_put_same; [assumption|].
         inversion Hv as [|? ? [_ Hc] _]. lia.
-      * rewrite spec_regs_cons_other by assumption. rewrite a6_get_put_other by (assumption || congruence). apply Hr.
+      * rewrite spec_regs_cons_other by assumption. rewrite a6_get_put_other by (assumption || congruence). now apply Hr.
     + destruct (spec_zeros_grow lgk seen c Hlt) as [Hs _]. rewrite Hs, Hz. reflexivity.
     + now rewrite He.
   - unfold Rep6. split; [assumption|]. split; [assumption|]. split; [|split; [|assumption]].
-    + intros j. rewrite spec_regs_cons_noop by assumption. apply Hr.
+    + intros j Hj. rewrite spec_regs_cons_noop by assumption. now apply Hr.
     + rewrite Hz. unfold spec_zeros. apply count_regs_ext. intros j _.
       now rewrite spec_regs_cons_noop by assumption.
 Qed.
